@@ -4,4 +4,6 @@ let lookup (p : string) : Model.sexp -> Model.sexp =
   | "c15" -> Model.run_c15
   | "c02" -> Model.run_c02
   | "c14" -> Model.run_c14
+  | "c17" -> Model.run_c17
+  | "c18" -> Model.run_c18
   | _ -> failwith ("unknown property " ^ p)
